@@ -123,6 +123,34 @@ func (g *G) NewKey() string {
 	return g.V.Key()
 }
 
+// Ünï is a named type with a non-ASCII identifier.
+type Ünï struct{ Ж int }
+
+var hostileTypes = []interface{}{
+	struct {
+		ID   int    "json:\"id\""
+		Name string "json:\"name,omitempty\" x:\"\\\\\""
+	}{},
+	&struct {
+		A int "k:\"a\\nb\\x01é\""
+	}{},
+	[]struct {
+		K string `yaml:"k"`
+	}{},
+	map[string]struct {
+		V bool `q:"\""`
+	}{},
+	func(struct {
+		Z int `z:"<&>"`
+	}) {
+	},
+	Ünï{},
+	&Ünï{},
+	make(chan struct {
+		C int `c:"'"`
+	}),
+}
+
 func typeName(v interface{}) string {
 	if v == nil {
 		return "<nil>"
@@ -205,6 +233,10 @@ func (g *G) scalar(kind string) (arg interface{}, in *Intent, present bool) {
 		return x, &Intent{K: IIface, V: x}, true
 	case "Type":
 		x := v.ifaceValue(1)
+		if v.R.Chance(1, 3) {
+			// types whose printed name needs escaping: struct tags are printed quoted, identifiers may be non-ASCII
+			x = hostileTypes[v.R.Intn(len(hostileTypes))]
+		}
 		return x, &Intent{K: IType, S: typeName(x)}, true
 	case "IPAddr":
 		ip := v.IP()
